@@ -453,5 +453,5 @@ def run(ctx):
     ctx.guarded(r, r5_visit_regs)
     from .. import wgslrules as WR
 
-    r = ctx.rule("R6", "the shader that consumes the bytecode decodes it the way it is encoded (bytes, immediate flag, dispatch, framing)", 37)
+    r = ctx.rule("R6", "the shader that consumes the bytecode decodes it the way it is encoded (bytes, immediate flag, dispatch, framing)", 41)
     ctx.guarded(r, WR.r_decoder)
